@@ -104,6 +104,8 @@ def validate_trace(ctx, E, name, module, cfg, trace, n_events, timeout=3000, hea
 # ------------------------------------------------------------------ C12
 def run_C12(ctx, E):
     ctx.exhaustive = True
+    # design level: Booth's algorithm (the algorithm poly chose) as a state machine against the declarative definition
+    stage_mc_only(ctx, E, "booth", "Booth_MC", "Booth_MC_%s.cfg" % ctx.tier)
     for suffix in ("", "3", "4"):
         stage_mc_replay(ctx, E, "mc%s" % (suffix or "2"), "C12_MC", "C12_MC_%s%s.cfg" % (ctx.tier, suffix))
     stage_record_trace(ctx, E, "rot", "C12_Trace", "C12_Trace.cfg", heap="8g")
@@ -170,6 +172,8 @@ def run_C07(ctx, E):
     os.environ["VERIF_TIER_INTERNAL"] = ctx.tier
     stage_mc_replay(ctx, E, "eligible", "C07_MC", "C07_MC_%s.cfg" % ctx.tier)
     stage_record_trace(ctx, E, "opt", "C07_Trace", "C07_Trace.cfg", heap="8g")
+    # the specification beyond the listed properties: GetCodingRegions, random.ProteinSequence, codon-table JSON files
+    stage_record_trace(ctx, E, "extras", "Extras_Trace", "Extras_Trace.cfg", prop="EXTRAS", heap="8g")
 
 
 def run_C09(ctx, E):
